@@ -8,9 +8,15 @@
      eval3 v p   = all(any(leaf) for leaf in group) for group in p.operands), in Kleene logic
      flags_ok    = an identity flag (`a is b` inside _impl_and) is only ever true for equal operands
    PART 2 (legacy query system): hand model of normalForm.py (Model/NormalForm.v), tied to the code by the
-   correspondence run.  form : bool, true = CONJUNCTIVE. *)
+   correspondence run.  form : bool, true = CONJUNCTIVE.
+   PART 3 (legacy query system, REGENERATED): the same statements over Gen/NormalFormGen.v, which
+   harness/translators/normalform.py rebuilds on every run from the current method bodies of normalForm.py
+   (class dispatch = match on the receiver, `x.normalize(form)` = `rec x`, fuel ties the knot).
+   PART 4: SHAPE of the results (both systems): literal sets, group counts, exact sizes.
+   PART 5: SimplePredicateVisitor.apply_logical_* (Gen/PredVisitGen.v, regenerated from queries/visitors.py). *)
 From Coq Require Import NArith List Bool.
 From V Require Import Base.Tri Model.Pred Model.NormalForm Gen.PredGen Proofs.PredProofs Proofs.NormalFormProofs.
+From V Require Import Gen.NormalFormGen Gen.PredVisitGen Proofs.NormalFormProofsG Proofs.NormalFormProofsX Proofs.NormalFormProofsS Proofs.PredProofsX Proofs.PredProofsV.
 Import ListNotations.
 
 (* ================================= PART 1: Predicate ============================================== *)
@@ -161,6 +167,250 @@ Theorem legacy_two_valued : forall v t, (forall a, v a <> UU) -> leval3 v t <> U
 Proof. exact leval3_two_valued_p. Qed.
 Print Assumptions legacy_two_valued.
 
+(* ================================= PART 3: legacy normal forms, regenerated ========================= *)
+
+(* the hand model of PART 2 (used by the correspondence run) computes exactly what the regenerated rules compute *)
+Theorem legacy_hand_model_is_generated :
+  (forall f i o, py_allows f i o = allows f i o) /\ (forall w, py_not_ w = not_ w)
+  /\ (forall form w, py_satisfies form w = satisfies form w)
+  /\ (forall rec form L o R, py_normalizeDispatch rec form L o R = dispatch rec form L o R)
+  /\ (forall fuel form w, py_normalize fuel form w = normalize fuel form w)
+  /\ (forall op w, py_flatten op w = flatten op w)
+  /\ (forall fuel form t, py_from_tree fuel form t = from_tree fuel form t).
+Proof.
+  exact (conj py_allows_eq (conj py_not_eq (conj py_satisfies_eq (conj py_dispatch_eq
+        (conj py_normalize_eq (conj py_flatten_eq py_from_tree_eq)))))).
+Qed.
+Print Assumptions legacy_hand_model_is_generated.
+
+(* proved directly on the generated rules (Kleene truth tables), without the hand model *)
+Theorem gen_wrap_not_sound : forall v w, weval3 v (py_not_ w) = tri_not (weval3 v w).
+Proof. exact py_not_sound_direct. Qed.
+Print Assumptions gen_wrap_not_sound.
+
+Theorem gen_dispatch_sound : forall v rec form L o R w,
+  (forall x y, rec x = Some y -> weval3 v y = weval3 v x) ->
+  py_normalizeDispatch rec form L o R = Some w -> weval3 v w = bop3 o (weval3 v L) (weval3 v R).
+Proof. exact py_dispatch_sound_direct. Qed.
+Print Assumptions gen_dispatch_sound.
+
+Theorem gen_normalize_sound : forall v fuel form w w',
+  py_normalize fuel form w = Some w' -> weval3 v w' = weval3 v w.
+Proof. exact py_normalize_sound_direct. Qed.
+Print Assumptions gen_normalize_sound.
+
+Theorem gen_wrap_of_sound : forall v t, weval3 v (py_wrap_of t) = leval3 v t.
+Proof. exact g_wrap_of_sound. Qed.
+Print Assumptions gen_wrap_of_sound.
+
+Theorem gen_normalize_normal : forall fuel form w w',
+  py_normalize fuel form w = Some w' -> py_satisfies form w' = true.
+Proof. exact g_normalize_normal. Qed.
+Print Assumptions gen_normalize_normal.
+
+Theorem gen_normalize_fuel : forall form w, exists n w', py_normalize n form w = Some w'.
+Proof. exact g_normalize_total. Qed.
+Print Assumptions gen_normalize_fuel.
+
+(* the `assert` of LogicalBinaryOperation._normalizeDispatchBinary cannot fail: if the recursive normalisations
+   return, every dispatch rule returns *)
+Theorem gen_dispatch_never_asserts : forall rec form L o R,
+  (forall x, exists y, rec x = Some y) -> exists w, py_normalizeDispatch rec form L o R = Some w.
+Proof. exact g_dispatch_no_assert. Qed.
+Print Assumptions gen_dispatch_never_asserts.
+
+Theorem gen_normalize_fuel_monotone : forall n m form w w',
+  n <= m -> py_normalize n form w = Some w' -> py_normalize m form w = Some w'.
+Proof. exact g_normalize_mono. Qed.
+Print Assumptions gen_normalize_fuel_monotone.
+
+Theorem gen_normalize_fixpoint : forall n form w, py_satisfies form w = true -> py_normalize (S n) form w = Some w.
+Proof. exact g_normalize_fixpoint. Qed.
+Print Assumptions gen_normalize_fixpoint.
+
+Theorem gen_flatten_sound : forall v op w, fold3 v op (py_flatten op w) = weval3 v w.
+Proof. exact g_flatten_sound. Qed.
+Print Assumptions gen_flatten_sound.
+
+Theorem gen_fromTree_sound : forall v fuel form t nodes,
+  py_from_tree fuel form t = Some nodes -> nodes_eval3 v form nodes = leval3 v t.
+Proof. exact g_from_tree_sound. Qed.
+Print Assumptions gen_fromTree_sound.
+
+Theorem gen_fromTree_normal : forall fuel form t nodes,
+  py_from_tree fuel form t = Some nodes -> nodes_normal nodes = true.
+Proof. exact g_from_tree_normal. Qed.
+Print Assumptions gen_fromTree_normal.
+
+Theorem gen_fromTree_toTree_sound : forall v fuel form t nodes t',
+  py_from_tree fuel form t = Some nodes -> to_tree form nodes = Some t' -> leval3 v t' = leval3 v t.
+Proof. exact g_from_to_tree_sound. Qed.
+Print Assumptions gen_fromTree_toTree_sound.
+
+Theorem gen_fromTree_toTree_total : forall form t, exists n nodes t',
+  py_from_tree n form t = Some nodes /\ to_tree form nodes = Some t'.
+Proof. exact g_from_to_tree_total. Qed.
+Print Assumptions gen_fromTree_toTree_total.
+
+(* ================================= PART 4: shape of the results ===================================== *)
+(* --- legacy: the SET of literals (atom, polarity) is preserved exactly: none invented, dropped or flipped *)
+Theorem gen_wrap_not_flips_literals : forall w, wlits (py_not_ w) = map flip (wlits w).
+Proof. exact g_not_lits. Qed.
+Print Assumptions gen_wrap_not_flips_literals.
+
+Theorem normalize_keeps_literals : forall fuel form w w',
+  normalize fuel form w = Some w' -> forall l, In l (wlits w') <-> In l (wlits w).
+Proof. exact normalize_lits_p. Qed.
+Print Assumptions normalize_keeps_literals.
+
+Theorem gen_normalize_keeps_literals : forall fuel form w w',
+  py_normalize fuel form w = Some w' -> forall l, In l (wlits w') <-> In l (wlits w).
+Proof. exact g_normalize_lits. Qed.
+Print Assumptions gen_normalize_keeps_literals.
+
+(* the branches of `_nodes` are exactly the literals of the input tree (polarity = parity of the NOTs above) *)
+Theorem gen_fromTree_literals : forall fuel form t nodes, py_from_tree fuel form t = Some nodes ->
+  forall l, In l (nodes_lits nodes) <-> In l (tlits true t).
+Proof. exact g_from_tree_lits. Qed.
+Print Assumptions gen_fromTree_literals.
+
+(* distribution only duplicates: the number of literal occurrences never shrinks *)
+Theorem normalize_never_shrinks : forall fuel form w w',
+  normalize fuel form w = Some w' -> length (wlits w) <= length (wlits w').
+Proof. exact normalize_size_p. Qed.
+Print Assumptions normalize_never_shrinks.
+
+(* SIZE BOUND.  ideal_groups / ideal_width: size of the textbook normal form (sum / max over the outer operator,
+   product / sum over the inner one).  The normaliser never exceeds it, and it is at most 2^(n-1) groups of at most n
+   branches for a tree with n atom occurrences. *)
+Theorem normalize_within_ideal_size : forall fuel form w w', normalize fuel form w = Some w' ->
+  ideal_groups form w' <= ideal_groups form w.
+Proof. exact normalize_groups_p. Qed.
+Print Assumptions normalize_within_ideal_size.
+
+Theorem normal_groups_are_ideal : forall form w, satisfies form w = true ->
+  length (flatten form w) = ideal_groups form w.
+Proof. exact sat_groups. Qed.
+Print Assumptions normal_groups_are_ideal.
+
+Theorem gen_normalize_within_ideal_size : forall fuel form w w', py_normalize fuel form w = Some w' ->
+  ideal_groups form w' <= ideal_groups form w /\ ideal_width form w' <= ideal_width form w.
+Proof. exact g_normalize_groups. Qed.
+Print Assumptions gen_normalize_within_ideal_size.
+
+Theorem gen_fromTree_within_ideal_size : forall fuel form t nodes, py_from_tree fuel form t = Some nodes ->
+  length nodes <= ideal_groups form (py_wrap_of t) /\ forall g, In g nodes -> length g <= ideal_width form (py_wrap_of t).
+Proof. exact g_from_tree_ideal. Qed.
+Print Assumptions gen_fromTree_within_ideal_size.
+
+Theorem fromTree_size_bound : forall fuel form t nodes, from_tree fuel form t = Some nodes ->
+  length nodes <= Nat.pow 2 (tleaves t - 1) /\ forall g, In g nodes -> length g <= tleaves t.
+Proof. exact from_tree_size_p. Qed.
+Print Assumptions fromTree_size_bound.
+
+Theorem gen_fromTree_size_bound : forall fuel form t nodes, py_from_tree fuel form t = Some nodes ->
+  length nodes <= Nat.pow 2 (tleaves t - 1) /\ forall g, In g nodes -> length g <= tleaves t.
+Proof. exact g_from_tree_size. Qed.
+Print Assumptions gen_fromTree_size_bound.
+
+(* --- new system: a Predicate is an AND of OR-groups of literals by construction; WHICH groups: *)
+Theorem or_groups_count : forall a b, length (py_impl_or a b) = length a * length b.
+Proof. exact impl_or_groups_p. Qed.
+Print Assumptions or_groups_count.
+
+Theorem or_group_shape : forall a b g, In g (py_impl_or a b) <-> exists x y, In x a /\ In y b /\ g = x ++ y.
+Proof. exact impl_or_group_p. Qed.
+Print Assumptions or_group_shape.
+
+Theorem logical_or_groups_count : forall args self,
+  length (py_logical_or self args) = fold_left (fun n a => n * length a) args (length self).
+Proof. exact logical_or_groups_p. Qed.
+Print Assumptions logical_or_groups_count.
+
+Theorem and_groups_count : forall a b, length (py_impl_and false a b) = length a + length b.
+Proof. exact impl_and_groups_p. Qed.
+Print Assumptions and_groups_count.
+
+(* NOT p: one OR-group per way of picking one literal out of every group of p; each has |p| literals *)
+Theorem not_groups_count : forall p, length (py_logical_not p) = widths p.
+Proof. exact logical_not_groups_p. Qed.
+Print Assumptions not_groups_count.
+
+Theorem not_group_width : forall p g, In g (py_logical_not p) -> length g = length p.
+Proof. exact logical_not_width_p. Qed.
+Print Assumptions not_group_width.
+
+Theorem not_size : forall p, size (py_logical_not p) = widths p * length p.
+Proof. exact logical_not_size_p. Qed.
+Print Assumptions not_size.
+
+Theorem not_invents_nothing : forall p l,
+  In l (lits (py_logical_not p)) -> exists l', In l' (lits p) /\ l = py_invert l'.
+Proof. exact logical_not_lits_p. Qed.
+Print Assumptions not_invents_nothing.
+
+Theorem or_invents_nothing : forall self args l, In l (lits (py_logical_or self args)) ->
+  In l (lits self) \/ exists a, In a args /\ In l (lits a).
+Proof. exact logical_or_lits_p. Qed.
+Print Assumptions or_invents_nothing.
+
+Theorem and_invents_nothing : forall self args l, In l (lits (py_logical_and self args)) ->
+  In l (lits self) \/ exists a, In a args /\ In l (lits (snd a)).
+Proof. exact logical_and_lits_p. Qed.
+Print Assumptions and_invents_nothing.
+
+Theorem build_atoms : forall f l, In l (lits (py_build f)) -> In (lit_atom l) (form_atoms f).
+Proof. exact build_atoms_p. Qed.
+Print Assumptions build_atoms.
+
+(* ================================= PART 5: SimplePredicateVisitor.apply_logical_* =================== *)
+(* results: None = the leaf / group is unchanged, Some p = replaced by p.  Specification: the rebuilt predicate
+   has the value of the original with every replacement substituted (res_val / res_val_group). *)
+Theorem apply_or_none : forall originals results,
+  py_apply_logical_or originals results = None <-> forall x, In x results -> x = None.
+Proof. exact apply_or_none_p. Qed.
+Print Assumptions apply_or_none.
+
+Theorem apply_or_sound : forall v originals results r,
+  py_apply_logical_or originals results = Some r ->
+  eval3 v r = or_all3 FF (map (fun ox => res_val v (fst ox) (snd ox)) (combine originals results)).
+Proof. exact apply_or_sound_p. Qed.
+Print Assumptions apply_or_sound.
+
+Theorem apply_and_none : forall originals results,
+  py_apply_logical_and originals results = None <-> forall x, In x results -> x = None.
+Proof. exact apply_and_none_p. Qed.
+Print Assumptions apply_and_none.
+
+Theorem apply_and_sound : forall v originals results r,
+  flags_ok py_impl_and [] (and_args originals results) ->
+  py_apply_logical_and originals results = Some r ->
+  eval3 v r = and_all3 TT (map (fun ox => res_val_group v (fst ox) (snd ox)) (combine originals results)).
+Proof. exact apply_and_sound_p. Qed.
+Print Assumptions apply_and_sound.
+
+Theorem apply_not_none : forall a, py_apply_logical_not a None = None.
+Proof. exact apply_not_none_p. Qed.
+Print Assumptions apply_not_none.
+
+(* apply_logical_not IGNORES the replacement: it returns NOT of the original leaf ... *)
+Theorem apply_not_actual : forall v a r r',
+  py_apply_logical_not a (Some r) = Some r' -> eval3 v r' = tri_not (v a).
+Proof. exact apply_not_actual_p. Qed.
+Print Assumptions apply_not_actual.
+
+(* ... so the specification holds only for a replacement equivalent to the original leaf ... *)
+Theorem apply_not_sound_partial : forall v a r r', py_apply_logical_not a (Some r) = Some r' ->
+  eval3 v r = v a -> eval3 v r' = tri_not (eval3 v r).
+Proof. exact apply_not_sound_partial_p. Qed.
+Print Assumptions apply_not_sound_partial.
+
+(* ... and fails in general (finding C15-F1; replayed on the implementation by the check) *)
+Theorem apply_not_refuted : exists v a r r',
+  py_apply_logical_not a (Some r) = Some r' /\ eval3 v r' <> tri_not (eval3 v r).
+Proof. exact apply_not_refuted_p. Qed.
+Print Assumptions apply_not_refuted.
+
 (* ================================= non-vacuity ====================================================== *)
 (* flags_ok is satisfiable with a TRUE identity flag (p.logical_and(p)), and then _impl_and really takes
    the `a is b` branch *)
@@ -189,4 +439,30 @@ Example fromTree_toTree_example :
   = Some [[LNot (LAtom 0%N)]; [LAtom 1%N; LNot (LAtom 2%N)]]
   /\ to_tree false [[LNot (LAtom 0%N)]; [LAtom 1%N; LNot (LAtom 2%N)]]
      = Some (LBin (LNot (LAtom 0%N)) false (LParens (LBin (LAtom 1%N) true (LNot (LAtom 2%N))))).
+Proof. vm_compute. split; reflexivity. Qed.
+
+(* the regenerated normaliser returns on the four-way example too, with the same answer *)
+Example gen_normalize_returns :
+  py_normalize 10 true (WBin (WBin (Opaque 0%N) true (Opaque 1%N)) false (WBin (Opaque 2%N) true (Opaque 3%N)))
+  = Some (WBin (WBin (WBin (Opaque 0%N) false (Opaque 2%N)) true (WBin (Opaque 0%N) false (Opaque 3%N))) true
+               (WBin (WBin (Opaque 1%N) false (Opaque 2%N)) true (WBin (Opaque 1%N) false (Opaque 3%N)))).
+Proof. vm_compute. reflexivity. Qed.
+
+(* apply_logical_and: the flags hypothesis is satisfiable with a replaced group, and the helper then substitutes it:
+   (x0) AND (x1 OR x2) with the second group replaced by (x3)  ->  (x0) AND (x3) *)
+Example apply_and_example :
+  flags_ok py_impl_and [] (and_args [[Pos 0%N]; [Pos 1%N; Pos 2%N]] [None; Some (false, [[Pos 3%N]])])
+  /\ py_apply_logical_and [[Pos 0%N]; [Pos 1%N; Pos 2%N]] [None; Some (false, [[Pos 3%N]])] = Some [[Pos 0%N]; [Pos 3%N]].
+Proof. cbn. repeat split; discriminate. Qed.
+
+(* apply_logical_or substitutes:  x0 OR NOT x1  with x0 replaced by (x2 AND x3)  ->  (x2 OR NOT x1) AND (x3 OR NOT x1) *)
+Example apply_or_example :
+  py_apply_logical_or [Pos 0%N; Neg 1%N] [Some [[Pos 2%N]; [Pos 3%N]]; None]
+  = Some [[Pos 2%N; Neg 1%N]; [Pos 3%N; Neg 1%N]].
+Proof. vm_compute. reflexivity. Qed.
+
+(* the size bound is attained:  (a AND b) OR (c AND d)  to CNF has 2^(4-1)/2 = 4 = ideal_groups groups of 2 branches *)
+Example size_bound_attained :
+  let t := LBin (LBin (LAtom 0%N) true (LAtom 1%N)) false (LBin (LAtom 2%N) true (LAtom 3%N)) in
+  ideal_groups true (wrap_of t) = 4 /\ option_map (@length _) (py_from_tree 10 true t) = Some 4.
 Proof. vm_compute. split; reflexivity. Qed.
